@@ -190,7 +190,16 @@ fn dump_body<'tcx>(tcx: TyCtxt<'tcx>, ldid: rustc_hir::def_id::LocalDefId, out: 
     let kind = tcx.def_kind(did);
     if !matches!(kind, DefKind::Fn | DefKind::AssocFn | DefKind::Closure | DefKind::SyntheticCoroutineBody | DefKind::Static { .. }) { return; }
     let (steal, promoted) = tcx.mir_promoted(ldid);
-    if steal.is_stolen() { eprintln!("[mirfacts] STOLEN {}", tcx.def_path_str(did)); let _ = write!(out, "{{\"stolen\":{}}}\n", esc(&tcx.def_path_str(did))); return; }
+    if steal.is_stolen() {
+        // a `const fn` evaluated during type checking (array lengths): its pre-borrowck MIR is gone, use the final one
+        if matches!(kind, DefKind::Fn | DefKind::AssocFn) {
+            let body = tcx.optimized_mir(did);
+            dump_mir(tcx, did, body, None, out);
+        } else {
+            let _ = write!(out, "{{\"stolen\":{}}}\n", esc(&tcx.def_path_str(did)));
+        }
+        return;
+    }
     let body = steal.borrow();
     dump_mir(tcx, did, &body, None, out);
     if !promoted.is_stolen() {
@@ -252,7 +261,7 @@ fn dump_mir<'tcx>(tcx: TyCtxt<'tcx>, did: DefId, body: &mir::Body<'tcx>, promote
     {
         let mut first = true;
         for (l, d) in body.local_decls.iter_enumerated() {
-            if d.is_user_variable() { if !first { out.push(','); } first = false; let _ = write!(out, "{}", l.as_u32()); }
+            if matches!(d.local_info, mir::ClearCrossCrate::Set(_)) && d.is_user_variable() { if !first { out.push(','); } first = false; let _ = write!(out, "{}", l.as_u32()); }
         }
     }
     out.push_str("],\"names\":{");
